@@ -732,11 +732,10 @@ theorem acct_onSupervise_core {s : Sys} (self fc : Cid) (targets allT : List Cid
       else if decision = 4 then
         tellAll (tellAll s2 false (some self) targets (.onKill true)) true (some self) allT .cmdResume
       else if decision = 5 then tellAll s2 true (some self) allT .cmdResume
-      else if decision = 6 then
+      else
         let s3 := upd s2 self (fun x => { x with paused := true })
         let t : Target := match (s.ctx self).parent with | some p => .own p | none => .nobody
-        tell s3 true (some self) t (.supervise ((self, []) :: chain') [])
-      else s2) := by
+        tell s3 true (some self) t (.supervise ((self, []) :: chain') [])) := by
   simp only
   have h1 := h0.trans0 (acct_say s!"decide:{self}:{fc}:{decision}" h0.ext.valid)
   have hsend : ∀ (x : Sys), s.n ≤ x.n → ∀ d, some self = some d → d < x.n :=
@@ -756,16 +755,14 @@ theorem acct_onSupervise_core {s : Sys} (self fc : Cid) (targets allT : List Cid
           exact h3.trans0 (acct_tellAll allT true (some self) .cmdResume h3.ext.valid (lift _ _ h3.ext.n_le hall) (hsend _ h3.ext.n_le) trivial rfl)
         · split
           · exact h2.trans0 (acct_tellAll allT true (some self) .cmdResume h2.ext.valid (lift _ _ h2.ext.n_le hall) (hsend _ h2.ext.n_le) trivial rfl)
-          · split
-            · have h3 := h2.trans0 (acct_upd_same self (fun x => { x with paused := true }) h2.ext.valid (fun _ => rfl))
-              refine h3.trans0 (acct_tell true (some self) _ (.supervise ((self, []) :: chain') []) h3.ext.valid ?_ (hsend _ h3.ext.n_le) ?_ rfl)
-              · exact parentTarget_ok' self hv _ h3.ext.n_le
-              · intro p hp
-                simp only [List.mem_cons] at hp
-                rcases hp with hp | hp
-                · rw [hp]; exact ⟨Nat.lt_of_lt_of_le hself h3.ext.n_le, fun t ht => by cases ht⟩
-                · exact chainOK_mono hch' h3.ext.n_le p hp
-            · exact h2
+          · have h3 := h2.trans0 (acct_upd_same self (fun x => { x with paused := true }) h2.ext.valid (fun _ => rfl))
+            refine h3.trans0 (acct_tell true (some self) _ (.supervise ((self, []) :: chain') []) h3.ext.valid ?_ (hsend _ h3.ext.n_le) ?_ rfl)
+            · exact parentTarget_ok' self hv _ h3.ext.n_le
+            · intro p hp
+              simp only [List.mem_cons] at hp
+              rcases hp with hp | hp
+              · rw [hp]; exact ⟨Nat.lt_of_lt_of_le hself h3.ext.n_le, fun t ht => by cases ht⟩
+              · exact chainOK_mono hch' h3.ext.n_le p hp
 
 theorem acct_onSuperviseDecide {s : Sys} (self : Cid) (chain : List (Cid × List Cid)) (hv : Valid s) (hself : self < s.n)
     (hch : chainOK s.n chain) : Acct0 s (onSuperviseDecide s self chain) := by
